@@ -149,6 +149,12 @@ func run(w *core.Worker, c Case) {
 			return
 		}
 		if c.Full || i == len(c.Ops)-1 {
+			// read-your-write first, before any other lookup touches the tree
+			it, err := t.Get(op.Key)
+			if mv, ok := model[op.Key]; ok != (err == nil) || (ok && (it.Key != op.Key || it.Val != mv)) {
+				w.Violation("bst.get-value", fmt.Sprintf("step %d: Get(%d) right after %+v = %+v,%v model=%v,%v", i, op.Key, op, it, err, mv, ok))
+				return
+			}
 			if !observe(i) {
 				return
 			}
